@@ -576,6 +576,22 @@ func init() {
 	// typ.use <kind> <tys...> <expect-hex>: the one-instruction function with a USE of the result spelled at LLVM's type
 	// (`%u = freeze T %r`): parse, print; the printed module must spell the use at the same type (the printer takes it from the
 	// parser-computed type of %r), i.e. parse-then-print preserves the text
+	// typ.usetext <kind> <tys...> <want-hex>: the text typ.use feeds the parser (the instruction plus a use of its result at the expected type), and the same
+	// text WITHOUT the use (control): handed to LLVM's own assembler to validate the expected type (LLVMSpec) against LLVM
+	reg("typ.usetext", func(a []string) string {
+		nm := map[string]*types.StructType{}
+		n := len(a)
+		ts := parseTys(nm, a[1:n-1])
+		want := string(unhexArg(a[n-1]))
+		text, ok := asmText(a[0], ts, nm)
+		if !ok || want == "void" || !strings.Contains(text, "\t%r = ") || strings.HasPrefix(a[0], "invoke") || strings.HasPrefix(a[0], "callbr") {
+			return "skip"
+		}
+		i := strings.Index(text, "\t%r = ")
+		j := i + strings.Index(text[i:], "\n")
+		use := fmt.Sprintf("\t%%u = freeze %s %%r", want)
+		return hexOut([]byte(text)) + " " + hexOut([]byte(text[:j+1]+use+"\n"+text[j+1:]))
+	})
 	reg("typ.use", func(a []string) string {
 		nm := map[string]*types.StructType{}
 		n := len(a)
@@ -688,6 +704,36 @@ func init() {
 		pl := pl
 		reg("gep."+pl, func(a []string) string { return gepIR(pl, map[string]*types.StructType{}, a) })
 	}
+	// gep.usetext <elem> <src> <idx...> <want-hex>: control text and text with the result used at the expected type, for LLVM's assembler
+	reg("gep.usetext", func(a []string) string {
+		n := len(a)
+		nm := map[string]*types.StructType{}
+		want := string(unhexArg(a[n-1]))
+		elem := parseTyIn(nm, a[0])
+		src := parseTyIn(nm, a[1])
+		var sb strings.Builder
+		params := []string{fmt.Sprintf("%s %%p", src)}
+		var idxs []string
+		for i, s := range a[2 : n-1] {
+			d := parseIdx(nm, s)
+			if d.kind == "r" {
+				return "skip"
+			}
+			if d.kind == "n" {
+				params = append(params, fmt.Sprintf("%s %%i%d", d.ty, i))
+				idxs = append(idxs, fmt.Sprintf("%s %%i%d", d.ty, i))
+			} else {
+				idxs = append(idxs, d.constant().String())
+			}
+		}
+		sb.WriteString(typedefsText(nm))
+		fmt.Fprintf(&sb, "define void @f(%s) {\n\t%%r = getelementptr %s, %s %%p", strings.Join(params, ", "), elem, src)
+		for _, s := range idxs {
+			sb.WriteString(", " + s)
+		}
+		head := sb.String()
+		return hexOut([]byte(head+"\n\tret void\n}\n")) + " " + hexOut([]byte(head+fmt.Sprintf("\n\t%%u = freeze %s %%r\n\tret void\n}\n", want)))
+	})
 	reg("gep.ok", func(a []string) string {
 		n := len(a)
 		want := a[n-1]
